@@ -162,6 +162,19 @@ def doctype_family():
     return out
 
 
+def aaa_in_table_family():
+    """Adoption agency whose common ancestor is a table part (the 'foster parent lastNode' branch), per table section."""
+    out = []
+    for sec in ("<table>", "<table><tbody>", "<table><thead>", "<table><tfoot>", "<table><tr>", "<table><tbody><tr>", "<table><caption>",
+                "<table><colgroup>", "<table><tr><td>"):
+        for f in ("b", "a", "em class=k", "nobr", "font color=x"):
+            nm = f.split()[0]
+            for blk in ("div", "p", "address", "ul><li", "table"):
+                out.append("%s<%s><%s>x</%s>y</table>z" % (sec, f, blk, nm))
+                out.append("<%s>%s<%s>x</%s>y</table>z</%s>w" % (f, sec, blk, nm, nm))
+    return out
+
+
 def limits_family():
     """Loop bounds and list limits of the algorithms: adoption agency outer (8) and inner (3) loops, Noah's Ark (3),
     scope depth, implied-end-tag chains."""
@@ -281,7 +294,7 @@ def shard(ctx):
                 break
     ctx.count("sequence_shards_completed" if done_all else "sequence_shards_cut_short")
     # directed families added after the second round of seeded changes: quirks-mode decision, loop bounds, frameset-ok flag
-    for fam, items in (("doctype", doctype_family()), ("limits", limits_family())):
+    for fam, items in (("doctype", doctype_family()), ("limits", limits_family()), ("aaa-in-table", aaa_in_table_family())):
         for qi, q in enumerate(items):
             k += 1
             if ctx.mine(k):
